@@ -344,12 +344,63 @@ def eval_c04(ctx: core.Ctx, ex: campaign.Executed, collect_fail):
                 sample={"type": str(ct), "target": key, "op": case["op"], "mode": mode, "input": (case.get("bytes") or case.get("words"))[:48]},
                 classes=["op." + case["op"], "mode." + mode, "lang." + key.split("|")[0]] + (["reduced_capacity_build"] if reduced else []) + (["dom." + case["dom"]] if case["op"] == "S" else ["bytes." + case["cls"]]),
             )
-        failed = [k for k, m in verdicts.items() if m]
+        # one failure record per (root-cause class, kind): reduced-capacity builds are classified by whether the input really
+        # carries an array longer than the reduced capacity (then it is the capacity-override defect) or not (something else)
+        by_kind: typing.Dict[str, typing.List[str]] = collections.defaultdict(list)
+        for k, m in verdicts.items():
+            if not m:
+                continue
+            kind = m.split(":")[0]
+            if kind in ("crash", "exit-failure"):
+                kind += _san_kind(m)
+            if k.startswith("c|") and k.endswith("|1") and job.get("cap_overrides"):
+                over = _exceeds_reduced(L, job, case)
+                kind = "reduced-capacity-build|" + ("array-longer-than-reduced-capacity|" if over else "within-reduced-capacity|") + kind
+            by_kind[kind].append(k)
         passed = [k for k, m in verdicts.items() if not m]
-        if failed:
-            kinds = sorted({verdicts[k].split(":")[0] for k in failed})  # type: ignore
-            sig = f"C04|{discriminate(failed, passed)}|{'+'.join(kinds)}"
+        for kind, failed in by_kind.items():
+            lang = discriminate(failed, passed) if not kind.startswith("reduced-capacity-build") else "c"
+            sig = f"C04|{lang}|{kind}"
             collect_fail(sig, f"type {ct} case {_short(case, 200)}: " + "; ".join(f"{k}: {verdicts[k]}" for k in failed[:3]), ex, ci, failed)
+
+
+def _exceeds_reduced(L, job, case) -> bool:
+    """Does the input carry (anywhere) a variable-length array longer than the reduced capacity of its field?"""
+    from .emit_c import c_type_name
+
+    ct = L.ctypes[case["ti"]]
+    ov = job.get("cap_overrides") or {}
+    try:
+        if case["op"] == "S":
+            v, _ = valuegen.from_words(ct, valuegen.hex_words(case["words"]))
+        else:
+            v, _ = refmodel.deserialize(ct, b"" if case["bytes"] == "-" else bytes.fromhex(case["bytes"]))
+    except refmodel.RefError:
+        return True  # the reference rejects on the way; the bytes may still carry an over-long array before the error
+
+    def walk(t, val) -> bool:
+        if isinstance(t, pydsdl.PrimitiveType):
+            return False
+        if isinstance(t, pydsdl.ArrayType):
+            return any(walk(t.element_type, e) for e in val)
+        t = inner(t)
+        if isinstance(t, pydsdl.UnionType):
+            (name, x), = val.items()
+            if name == "__tag__":
+                return False
+            fs = [f for f in t.fields if f.name == name]
+        else:
+            fs = list(t.fields_except_padding)
+        for f in fs:
+            x = val[f.name]
+            k = ov.get(f"{c_type_name(t)}_{f.name}_ARRAY_CAPACITY_")
+            if k is not None and isinstance(f.data_type, pydsdl.VariableLengthArrayType) and len(x) > k:
+                return True
+            if walk(f.data_type, x):
+                return True
+        return False
+
+    return walk(ct, v)
 
 
 def _san_kind(text: str) -> str:
